@@ -25,7 +25,20 @@ def syms():
 
 
 CONST = {"2": sp.Integer(2), "-1": sp.Integer(-1), "3": sp.Integer(3), "-2": sp.Integer(-2), "1/2": sp.Rational(1, 2), "-1/2": sp.Rational(-1, 2), "3/2": sp.Rational(3, 2),
-         "2/3": sp.Rational(2, 3), "-3": sp.Integer(-3), "0.5": sp.Float(0.5)}
+         "2/3": sp.Rational(2, 3), "-3": sp.Integer(-3), "0.5": sp.Float(0.5), "1": sp.Integer(1), "5": sp.Integer(5), "pi": sp.pi}
+
+
+def numeric_sum_trees():
+    """canonical trees in which a SUM OF NUMBERS that SymPy cannot fold (1 + sqrt(5), 2 - sqrt(3), pi + 1, sqrt(2) + sqrt(3)) is a factor, a
+    numerator, a denominator, a base or an exponent: such a sum needs its brackets exactly like a sum with a symbol in it"""
+    sums = [("add", ("c", "1"), ("sqrt", ("c", "5"))), ("sub", ("c", "2"), ("sqrt", ("c", "3"))), ("add", ("c", "pi"), ("c", "1")), ("add", ("sqrt", ("c", "2")), ("sqrt", ("c", "3")))]
+    out = []
+    for ns in sums:
+        for i in (0, 1):
+            x, y = ("s", i), ("s", 2)
+            out += [("div", ns, x), ("mul", ns, x), ("div", x, ns), ("pow", ns, x), ("pow", x, ns), ("neg", ("mul", ns, x)), ("add", ("div", ns, x), y), ("mul", ("div", ns, x), y),
+                    ("div", ("mul", ns, x), y), ("sub", y, ("mul", ns, x)), ("div", y, ("mul", ns, x)), ("pow", ("mul", ns, x), ("c", "2")), ("sqrt", ("div", ns, x))]
+    return out
 LEAVES = [("s", 0), ("s", 1), ("s", 2), ("c", "2"), ("c", "-1"), ("c", "1/2"), ("c", "-3/2" if False else "3/2"), ("c", "-2")]
 
 
@@ -312,7 +325,7 @@ def run(ctx):
             x, y = rng.choice(d2), rng.choice(pool)
             op = rng.choice(["mul", "div", "div", "pow", "sub"])
             d3.append((op, x, y) if rng.random() < 0.5 else (op, y, x))
-    trees = d1 + d2 + d3
+    trees = d1 + d2 + d3 + numeric_sum_trees()
     # Only canonical (auto-evaluated) trees are in the property's quantifier; fully unevaluated synthetic trees are NOT claimed
     # (the printers do mis-bracket some of them, e.g. a - (b + c) built with evaluate=False renders as "a - b + c": see DESIGN.md,
     # observations).  Source forms are covered where the property puts them: the catalogue members below.
